@@ -4,5 +4,5 @@ CONSTANTS
   LinkStride = 192
   PermMax = 4
 SPECIFICATION Spec
-INVARIANTS Terminates NothingRejected StackBounded EndBag EndValid EndAllOuts EndExpected EndLoop EndParentChild EndSiblings EndOnce EndExactSet PredicateTight ListingLemma
+INVARIANTS Terminates NothingRejected StackBounded EndBag EndValid EndAllOuts EndExpected EndLoop EndParentChild EndSiblings EndOnce EndExactSet PredicateTight ExpectedAdmissible ListingLemma
 CHECK_DEADLOCK TRUE
